@@ -105,6 +105,19 @@ func predConcurrentStruct(c Case) (r Result) {
 	wg.Wait()
 	r.Nontrivial = true
 	r.class("mode.struct")
+	if strings.Contains(strings.Replace(expr, "[*]", "", -1), "*") || strings.Contains(expr, "keys(") || strings.Contains(expr, "values(") {
+		// member order is unspecified: only panics and races are checked
+		for g := range outs {
+			for _, o := range outs[g] {
+				if o.Panic != nil {
+					r.Violation = "Search panicked under concurrent use on struct data"
+					r.Got = showOut(o)
+					return
+				}
+			}
+		}
+		return
+	}
 	for g := range outs {
 		for _, o := range outs[g] {
 			if o.Panic != nil {
@@ -293,6 +306,11 @@ func predConcurrent(c Case) (r Result) {
 					r.Expected, r.Got = show(ownWant[g]), showOut(o)
 					return
 				}
+				continue
+			}
+			if ev.Ambiguous {
+				// the unspecified order of object members may legitimately change the
+				// outcome (even whether the call fails) from one evaluation to the next
 				continue
 			}
 			if (o.Err != nil) != (seq.Err != nil) {
